@@ -1,3 +1,4 @@
+import BasicModel.Gen.Limits
 import BasicModel.Lemmas.AssocList
 import BasicModel.Lemmas.KeyText
 import BasicModel.Thm.C08
@@ -1199,6 +1200,10 @@ theorem pool_bounded (ops : List Op) : (ops.foldl step Var.new).vars.length ≤ 
 
 example : ([Op.store "A%".toList (.int 1), Op.storeArray "B%".toList [.int 3] (.int 2),
     Op.defTy .string (.str "A".toList) (.str "Z".toList)].foldl step Var.new).vars.length = 2 := by decide
+
+/-- the limits the Rust source states today are the documented ones: auto-dimension bound 10, 255-character strings, 65 535-variable pool test; `Gen/Limits.lean` is regenerated from /repo/src on every run, so editing one of these
+    constants in the Rust source breaks this obligation -/
+theorem generated_limits_documented : Gen.autoDimBound = 10 ∧ Gen.stringMaxLen = 255 ∧ Gen.varMaxLen = 65535 := by decide
 
 end Thm.C06
 end Basic
